@@ -68,6 +68,9 @@ impl RF for [f32; 2] {
     fn alphabet() -> Vec<Self> {
         pair(&FA.iter().map(|&x| x as f32).collect::<Vec<_>>())
     }
+    fn rough() -> Vec<Self> {
+        pair(&ROUGH.iter().map(|&x| x as f32).collect::<Vec<_>>())
+    }
     fn amps(self) -> Vec<f64> {
         vec![self[0] as f64, self[1] as f64]
     }
@@ -95,6 +98,25 @@ impl RF for [f64; 1] {
     }
     fn from_f64(x: f64) -> Self {
         [x]
+    }
+}
+impl RF for [f64; 2] {
+    const NAME: &'static str = "[f64;2]";
+    const EPS: f64 = f64::EPSILON;
+    fn alphabet() -> Vec<Self> {
+        pair(&FA)
+    }
+    fn rough() -> Vec<Self> {
+        pair(&ROUGH)
+    }
+    fn amps(self) -> Vec<f64> {
+        vec![self[0], self[1]]
+    }
+    fn fl(f: [f64; 2]) -> Vec<f64> {
+        vec![f[0], f[1]]
+    }
+    fn from_f64(x: f64) -> Self {
+        [x, -x]
     }
 }
 impl RF for [i16; 2] {
@@ -404,7 +426,7 @@ where
     F::Float: Copy + Debug,
 {
     let alpha = F::rough();
-    fn rec<F: RF>(ctx: &Ctx, n: usize, alpha: &[F], rms: &Rms<F, Vec<F::Float>>, last: &VecDeque<f64>, t: usize, depth: usize, path: &mut Vec<Act>, count: &mut u64)
+    fn rec<F: RF>(ctx: &Ctx, n: usize, alpha: &[F], rms: &Rms<F, Vec<F::Float>>, last: &VecDeque<Vec<f64>>, t: usize, depth: usize, path: &mut Vec<Act>, count: &mut u64)
     where
         F::Float: Copy + Debug,
     {
@@ -415,7 +437,7 @@ where
             let mut r2 = rms.clone();
             let mut l2 = last.clone();
             l2.pop_front();
-            l2.push_back(f.amps()[0]);
+            l2.push_back(f.amps());
             path.push(Act::Next(i as u8));
             *count += 1;
             if let Some((k, m)) = rough_step::<F>(n, &mut r2, &l2, *f, t + 1) {
@@ -437,35 +459,38 @@ where
                 let p2 = path.clone();
                 ctx.violation(&k, case, m, Some(&move || rough_path::<F>(n, &p2).map(|e| e.1)));
             } else {
-                let zero: VecDeque<f64> = (0..n).map(|_| 0.0).collect();
+                let zero: VecDeque<Vec<f64>> = (0..n).map(|_| vec![0.0; F::CHANNELS]).collect();
                 rec(ctx, n, alpha, &r2, &zero, 0, depth - 1, path, count);
             }
             path.pop();
         }
     }
     let rms = Rms::<F, Vec<F::Float>>::new(Fixed::from(vec![<F::Float as Frame>::EQUILIBRIUM; n]));
-    let last: VecDeque<f64> = (0..n).map(|_| 0.0).collect();
+    let last: VecDeque<Vec<f64>> = (0..n).map(|_| vec![0.0; F::CHANNELS]).collect();
     rec::<F>(ctx, n, &alpha, &rms, &last, 0, depth, &mut Vec::new(), count);
 }
 
-/// one tolerant step: `last` already contains the new frame
-fn rough_step<F: RF>(n: usize, rms: &mut Rms<F, Vec<F::Float>>, last: &VecDeque<f64>, f: F, t: usize) -> Option<Bad>
+/// one tolerant step: `last` already contains the new frame; every channel is judged
+fn rough_step<F: RF>(n: usize, rms: &mut Rms<F, Vec<F::Float>>, last: &VecDeque<Vec<f64>>, f: F, t: usize) -> Option<Bad>
 where
     F::Float: Copy + Debug,
 {
-    let ms_ref: f64 = last.iter().map(|x| x * x).sum::<f64>() / n as f64;
     // a panic in the detector (an overflow check, a debug assertion) on a finite input is a violation
-    let (ms_impl, out) = match catch(|| (F::fl(rms.clone().next_squared(f))[0], F::fl(rms.next(f))[0])) {
+    let (ms_all, out_all) = match catch(|| (F::fl(rms.clone().next_squared(f)), F::fl(rms.next(f)))) {
         Ok(x) => x,
         Err(p) => return Some(("rms.panic".into(), format!("{} N={n} step {t}: panicked: {p}", F::NAME))),
     };
-    // two rounded additions per step on a sum bounded by N; the clamp only moves the sum towards the truth
-    let bound = 4.0 * (t + n) as f64 * F::EPS * (n as f64) / n as f64 + 1e-300;
-    if !(ms_impl >= 0.0) || (ms_impl - ms_ref).abs() > bound {
-        return Some(("rms.drift".into(), format!("{} N={n} step {t}: mean square {ms_impl:e} vs exact {ms_ref:e} (bound {bound:e})", F::NAME)));
-    }
-    if !sqrt_ok(out, ms_impl, F::EPS) {
-        return Some(("rms.next".into(), format!("{} N={n} step {t}: next() = {out:e} but next_squared() = {ms_impl:e} (sqrt {:e})", F::NAME, ms_impl.sqrt())));
+    for c in 0..F::CHANNELS {
+        let ms_ref: f64 = last.iter().map(|x| x[c] * x[c]).sum::<f64>() / n as f64;
+        let (ms_impl, out) = (ms_all[c], out_all[c]);
+        // two rounded additions per step on a sum bounded by N; the clamp only moves the sum towards the truth
+        let bound = 4.0 * (t + n) as f64 * F::EPS * (n as f64) / n as f64 + 1e-300;
+        if !(ms_impl >= 0.0) || (ms_impl - ms_ref).abs() > bound {
+            return Some(("rms.drift".into(), format!("{} N={n} step {t} channel {c}: mean square {ms_impl:e} vs exact {ms_ref:e} (bound {bound:e})", F::NAME)));
+        }
+        if !sqrt_ok(out, ms_impl, F::EPS) {
+            return Some(("rms.next".into(), format!("{} N={n} step {t} channel {c}: next() = {out:e} but next_squared() = {ms_impl:e} (sqrt {:e})", F::NAME, ms_impl.sqrt())));
+        }
     }
     None
 }
@@ -495,14 +520,14 @@ where
 {
     let alpha = F::rough();
     let mut rms = Rms::<F, Vec<F::Float>>::new(Fixed::from(vec![<F::Float as Frame>::EQUILIBRIUM; n]));
-    let mut last: VecDeque<f64> = (0..n).map(|_| 0.0).collect();
+    let mut last: VecDeque<Vec<f64>> = (0..n).map(|_| vec![0.0; F::CHANNELS]).collect();
     let mut t = 0;
     for a in acts.iter() {
         match a {
             Act::Next(i) => {
                 let f = alpha[*i as usize];
                 last.pop_front();
-                last.push_back(f.amps()[0]);
+                last.push_back(f.amps());
                 t += 1;
                 if let Some(b) = rough_step::<F>(n, &mut rms, &last, f, t) {
                     return Some(b);
@@ -513,7 +538,7 @@ where
                     return Some(b);
                 }
                 for x in last.iter_mut() {
-                    *x = 0.0;
+                    *x = vec![0.0; F::CHANNELS];
                 }
                 t = 0;
             }
@@ -815,6 +840,7 @@ fn dispatch_replay(v: &Value) -> Option<String> {
         "[f32;1]" => go!([f32; 1]),
         "[f32;2]" => go!([f32; 2]),
         "[f64;1]" => go!([f64; 1]),
+        "[f64;2]" => go!([f64; 2]),
         "[i16;2]" => go!([i16; 2]),
         "[u8;1]" => go!([u8; 1]),
         _ => Some("unknown frame type".into()),
@@ -835,7 +861,7 @@ fn main() {
     }
     let nmax = ctx.tier.pick(3, 4);
     ctx.rule(&format!("build={}: merged — stateright BFS to fixpoint over the real Rms detector, state = (first, window contents, running sum) read with clone().into_parts(), rebuilt per transition by replaying the BFS witness history on a fresh detector; window N=1..={nmax}; frames [f32;1] [f32;2] [f64;1] [i16;2] [u8;1]; exact dyadic alphabets (every square and window sum exact); actions next(a)/next_squared(a)/current()/reset(); oracle: exact mean of the squares of the last N inputs, sqrt within {} , reset() restores the all-zero state (window and sum read back); distinct by (state, action, observation)", if NOSTD {"no_std"} else {"std"}, if NOSTD {"7% + 1e-18 (approximate sqrt)"} else {"2 ulp"}));
-    ctx.rule("cancellation — unmerged DFS over every history of length <= 2N+2 over the non-dyadic alphabet {0,1e-9,1e-4,1e-3,0.1,0.3,0.7,1.0} plus reset() after any prefix, f32 and f64 mono, N=1..=3: mean square within 4(t+N)eps of the f64 recomputation, never negative or NaN, next() == sqrt(next_squared()) within the build's sqrt tolerance, reset() restores the all-zero state (window and running sum read back) even when rounding has absorbed small squares");
+    ctx.rule("cancellation — unmerged DFS over every history of length <= 2N+2 over the non-dyadic alphabet {0,1e-9,1e-4,1e-3,0.1,0.3,0.7,1.0} plus reset() after any prefix, f32 and f64, mono and stereo (the two channels carry different letters), N=1..=3: mean square within 4(t+N)eps of the f64 recomputation, never negative or NaN, next() == sqrt(next_squared()) within the build's sqrt tolerance, reset() restores the all-zero state (window and running sum read back) even when rounding has absorbed small squares");
     ctx.rule("drift — one long deterministic burst/silence run per (format, N in {1,7,64,1000,1024,4096,44100,48000,65535,65536,65537}), at least four windows long; labelled single executions");
     if !NOSTD {
         ctx.rule("adaptor — signal.rms(ring) over every 4-frame source over the [f32;2] alphabet, N=1..=3, 6 outputs: bit-identical to the detector fed the same frames, one source pull per output, is_exhausted forwarded");
@@ -869,17 +895,19 @@ fn main() {
 
     // cancellation DFS
     guard::set_hang_secs(600);
-    let cjobs: Vec<(usize, usize)> = (0..2).flat_map(|t| (1..=3).map(move |n| (t, n))).collect();
+    let cjobs: Vec<(usize, usize)> = (0..4).flat_map(|t| (1..=3).map(move |n| (t, n))).collect();
     let counts: Vec<u64> = cjobs
         .par_iter()
         .map(|&(t, n)| {
             let mut c = 0u64;
-            let _guard_scope = guard::scoped(&json!({"sys":"rms","frame": if t==0 {"[f32;1]"} else {"[f64;1]"},"n":n,"alphabet":"rough","actions":[],"note":"cancellation DFS root"}).to_string());
+            let fname = ["[f32;1]", "[f64;1]", "[f32;2]", "[f64;2]"][t];
+            let _guard_scope = guard::scoped(&json!({"sys":"rms","frame": fname,"n":n,"alphabet":"rough","actions":[],"note":"cancellation DFS root"}).to_string());
             let depth = (2 * n + 2).min(ctx.tier.pick(7, 8));
-            if t == 0 {
-                cancel_dfs::<[f32; 1]>(ctx, n, depth, &mut c);
-            } else {
-                cancel_dfs::<[f64; 1]>(ctx, n, depth, &mut c);
+            match t {
+                0 => cancel_dfs::<[f32; 1]>(ctx, n, depth, &mut c),
+                1 => cancel_dfs::<[f64; 1]>(ctx, n, depth, &mut c),
+                2 => cancel_dfs::<[f32; 2]>(ctx, n, depth, &mut c),
+                _ => cancel_dfs::<[f64; 2]>(ctx, n, depth, &mut c),
             }
             guard::leave();
             c
